@@ -1,3 +1,4 @@
+pub mod c01;
 pub mod c03;
 pub mod c04;
 pub mod c13;
@@ -8,6 +9,7 @@ use crate::engine::{Family, Tier};
 pub fn run(id: &str, tier: Tier, hash_out: Option<String>) -> i32 {
     match id {
         "SELFTEST" => selftest::run(),
+        "C01" => c01::run(tier),
         "C03" => c03::run(tier, hash_out),
         "C04" => c04::run(tier),
         "C13" => c13::run(tier),
@@ -20,6 +22,7 @@ pub fn run(id: &str, tier: Tier, hash_out: Option<String>) -> i32 {
 
 pub fn replay_families(id: &str, tier: Tier) -> Option<Vec<Family<'static>>> {
     match id {
+        "C01" => Some(c01::replay_families(tier)),
         "C03" => Some(c03::replay_families(tier)),
         "C04" => Some(c04::replay_families(tier)),
         "C13" => Some(c13::replay_families(tier)),
